@@ -557,6 +557,10 @@ def check_C20(tier: str, seed: int) -> int:
     ps = fw.ProofStatus("C20", ["Properties.C20"])
     sl = layers.shift_layer(seed, SHIFT_BUDGET[tier])
     ok1 = use_simple_layer(v, "C20", sl, "shift", ["C20"])
+    # the dispatcher clause on mixed states: parked / charging vehicles with drivers off shift under configurations
+    # whose valid dispatch states include them (only the C20 pair monitor of that layer counts here)
+    dl20 = layers.dispatch_layer(seed, DISPATCH_BUDGET[tier])
+    use_simple_layer(v, "C20", dl20, "dispatch", ["C20"], diff_filter=NO_DIFFS)
     if (not ps.ok or not ok1) and not v.violations:
         big = layers.shift_layer(seed + 7919, SHIFT_BUDGET[tier] * 6)
         use_simple_layer(v, "C20", big, "shift", ["C20"])
@@ -564,6 +568,8 @@ def check_C20(tier: str, seed: int) -> int:
     if not ps.ok:
         v.broken(f"proof obligation for C20: {ps.failing_obligation()}", {"theorem_or_build": ps.failing_obligation()})
     cov = fw.proof_coverage(ps)
+    cov["dispatcher_runs"] = dl20["cases"]
+    cov["dispatcher_pairs_checked"] = dl20["rows"]
     cov["evaluations"] = sl["steps"]
     cov["distinct_nontrivial"] = len(sl["shapes"])
     cov["rule"] = ("function-level: shift tables (1-4 schedules: ordinary, wrapping past midnight, empty start=end, 00:00:00/23:59:59 ends, ends placed exactly on / one second "
